@@ -20,7 +20,7 @@ RULE = (
     "nested loops (axes follow the LISTED order; joint map pairs elements; joint axis first/last as requested; every "
     "pytree leaf); wrappers allow_only_kwargs / allow_args / convert_kwargs_to_args / all_as_kwargs / all_as_args / "
     "get_union_of_arguments with permuted keyword order, mixed positional+keyword calls, one missing / one "
-    "unexpected argument (must raise ValueError) and signature preservation. Fixed exhaustive part: all 64 ordered "
+    "unexpected argument (must raise ValueError) and signature preservation; the same function with a default value for its last parameter must reject a misspelt keyword although the argument count is right. Fixed exhaustive part: all 64 ordered "
     "subsets of a 4-parameter function x 3 output kinds for productmap. Non-trivial: >=3 mapped names (or >=2 for "
     "wrappers' keyword permutations) listed in an order different from the signature order; distinct by case digest."
 )
